@@ -36,7 +36,7 @@ type hsPair struct {
 // The server side uses the process-global session cache (as storeSession does).
 func realPair(clientConf, serverConf *security.SecurityConfig, clientAddr string) *hsPair {
 	ca, cb := bufpipe.Pair(clientAddr, "10.0.0.2:9618")
-	ctx, cancel := context.WithTimeout(context.Background(), 800*time.Millisecond)
+	ctx, cancel := context.WithTimeout(context.Background(), 20*time.Second)
 	defer cancel()
 	p := &hsPair{ca: ca, cb: cb}
 	p.cst, p.sst = stream.NewStream(ca), stream.NewStream(cb)
@@ -65,7 +65,7 @@ func realPair(clientConf, serverConf *security.SecurityConfig, clientAddr string
 
 // exchange sends one message each way; returns whether both arrived intact.
 func (p *hsPair) exchange() bool {
-	ctx, cancel := context.WithTimeout(context.Background(), 300*time.Millisecond)
+	ctx, cancel := context.WithTimeout(context.Background(), 20*time.Second)
 	defer cancel()
 	if p.cst.SendMessage(ctx, []byte("c2s-payload")) != nil {
 		return false
@@ -114,6 +114,7 @@ type resumeObs struct {
 	auth, enc   bool
 	appAccepted bool
 	leak        bool // the server's answer to the requester appeared in clear on the wire
+	c2s         []byte // everything the requester wrote on this connection (request + protected application message)
 }
 
 // scriptedResume sends a hand-built resumption request, optionally keys its stream, sends one
@@ -121,7 +122,7 @@ type resumeObs struct {
 func scriptedResume(own *security.SessionCache, sid string, want bool, keyMode string, key []byte, fromAddr string, requireAuth bool) resumeObs {
 	var ob resumeObs
 	ca, cb := bufpipe.Pair(fromAddr, "10.0.0.2:9618")
-	ctx, cancel := context.WithTimeout(context.Background(), 600*time.Millisecond)
+	ctx, cancel := context.WithTimeout(context.Background(), 20*time.Second)
 	defer cancel()
 	sst := stream.NewStream(cb)
 	sst.SetPeerAddr(fromAddr)
@@ -201,6 +202,7 @@ func scriptedResume(own *security.SessionCache, sid string, want bool, keyMode s
 		ob.appAccepted = appErr == nil && gotApp != nil
 	}
 	ob.leak = bytes.Contains(cb.Written(), []byte("TOP-SECRET-ANSWER"))
+	ob.c2s = append([]byte{}, ca.Written()...)
 	return ob
 }
 
@@ -409,6 +411,25 @@ func runResume(c *Ctx) error {
 				if ob.ok && how == "right" && (alive || aliveOwn) && (ob.user != user || ob.auth != authed) {
 					viol("identity-lost", "resumption did not restore the identity / authentication status of the original handshake", user+"/true", fmt.Sprintf("%s/%v", ob.user, ob.auth))
 				}
+				if ob.ok && keyMode == "right" && ob.appAccepted && len(ob.c2s) > 0 {
+					// ---- replay of a SCRIPTED (legacy-style) key-holding requester's byte stream ----
+					// The cedar client always asks for a reply; a legacy peer may not (ResumeResponse=false):
+					// then the server sends nothing before the protected traffic and contributes no fresh
+					// value to the connection. Replay what this legitimate requester wrote, byte for byte,
+					// into a fresh server connection while the session is still alive.
+					k := "replay-c2s"
+					if !want {
+						k = "replay-c2s-noreply"
+					}
+					c.Count("scripted-" + k)
+					for _, cut := range []int{len(ob.c2s), len(ob.c2s) - 1} {
+						if cut > 0 && replayToServerConf(own, requireAuth, ob.c2s[:cut]) {
+							viol(k, "a byte-for-byte replay of the client->server bytes of a recorded resumed connection (scripted requester holding the key, reply requested: "+b01(want)+") was accepted by a fresh server connection as application data",
+								"receive error on the fresh connection", fmt.Sprintf("application data delivered (bytes [0:%d] of %d replayed)", cut, len(ob.c2s)))
+							break
+						}
+					}
+				}
 				if ob.ok && how == "right" {
 					// a successful resumption puts the session on its lease: it now expires one lease
 					// from now (not later), however long the original duration was
@@ -473,7 +494,10 @@ func runResume(c *Ctx) error {
 }
 
 // replayToServer feeds recorded client bytes to a fresh server connection; true = app data delivered.
-func replayToServer(rec []byte) bool {
+func replayToServer(rec []byte) bool { return replayToServerConf(nil, true, rec) }
+
+// replayToServerConf: the same against a server with the given own cache and authentication requirement.
+func replayToServerConf(own *security.SessionCache, requireAuth bool, rec []byte) bool {
 	ca, cb := bufpipe.Pair("10.0.0.1:1111", "10.0.0.2:9618")
 	ctx, cancel := context.WithTimeout(context.Background(), 300*time.Millisecond)
 	defer cancel()
@@ -483,6 +507,10 @@ func replayToServer(rec []byte) bool {
 	sst.SetPeerAddr("10.0.0.1:1111")
 	cb.Inject(rec)
 	sc := *srvConf(true)
+	if !requireAuth {
+		sc.Authentication = security.SecurityOptional
+	}
+	sc.SessionCache = own
 	a := security.NewAuthenticator(&sc, sst)
 	if _, err := a.ServerHandshake(ctx); err != nil {
 		return false
